@@ -33,6 +33,7 @@ PROBE_PATHS = ['/r1', '/r2', '/t', '/s/r1', '/s/t', '/s/s/r1', '/s/r2', '/zz']
 PROBE_METHODS = ['GET', 'POST', 'PUT']
 APP_KINDS = ['K0', 'K1', 'K2', 'K3']
 ENTRY_KINDS = ['R1', 'R2', 'T', 'G', 'P']
+INDEXES = (None, 0, 1, -1)
 FAIL_KINDS = ['unresolved', 'conflict', 'badpattern', 'badmw', 'embedded-2nd', 'badwsgi', 'badwsgi-sig']
 
 
@@ -74,7 +75,9 @@ class Model(object):
                    for e in src['table']]
         else:
             new = [self.entry(p, ms, mk, m) for p, ms, mk in self.SPECS[kind]]
-        pos = len(m['table']) if index is None else min(index, len(m['table']))
+        n = len(m['table'])
+        # the requested index means what it means for list.insert(): negative counts from the end, out of range clamps
+        pos = n if index is None else (min(index, n) if index >= 0 else max(0, n + index))
         m['table'][pos:pos] = new
 
     def apply(self, op):
@@ -351,11 +354,11 @@ def enabled_ops(w, max_apps):
         ops.append(('fail-new',))
     for i in range(n):
         for kind in ENTRY_KINDS:
-            for idx in (None, 0, 1):
+            for idx in INDEXES:
                 ops.append(('add', i, kind, idx))
         for k in range(n):
             if k != i and len(w.model[k]['table']) > 0 and len(w.model[k]['table']) + len(w.model[i]['table']) <= 6:
-                for idx in (None, 0, 1):
+                for idx in INDEXES:
                     ops.append(('add', i, ('S', k), idx))
         for fk in FAIL_KINDS:
             ops.append(('fail', i, fk))
